@@ -35,6 +35,7 @@ class State:
     def __init__(self, prefix=(), name="path"):
         self.prefix = list(prefix)
         self.decisions = []
+        self.forks = 0
         self.alternatives = []
         self.pc = []
         self.solver = z3.Solver()
@@ -89,20 +90,24 @@ class State:
             return False
         idx = len(self.decisions)
         if idx < len(self.prefix):
-            d = self.prefix[idx]
+            d, forked = self.prefix[idx]
         else:
             t = self.feasible(cond)
             f = self.feasible(z3.Not(cond))
+            forked = False
             if t and f:
-                self.alternatives.append(self.decisions[:idx] + [False])
+                self.alternatives.append(self.decisions[:idx] + [(False, True)])
                 d = True
+                forked = True
             elif t:
                 d = True
             elif f:
                 d = False
             else:
                 raise Infeasible()
-        self.decisions.append(d)
+        self.decisions.append((d, forked))
+        if forked:
+            self.forks += 1
         self.assume(cond if d else z3.Not(cond))
         return d
 
@@ -111,11 +116,12 @@ class State:
         for k in range(n - 1):
             idx = len(self.decisions)
             if idx < len(self.prefix):
-                d = self.prefix[idx]
+                d, _ = self.prefix[idx]
             else:
-                self.alternatives.append(self.decisions[:idx] + [False])
+                self.alternatives.append(self.decisions[:idx] + [(False, True)])
                 d = True
-            self.decisions.append(d)
+            self.decisions.append((d, True))
+            self.forks += 1
             if d:
                 return k
         return n - 1
